@@ -8,6 +8,7 @@ import logging
 import os
 import shutil
 import sys
+import typing
 
 REPO = os.environ.get("VERIF_REPO", "/repo")
 sys.path.insert(0, REPO)
@@ -33,8 +34,10 @@ UNSET = object()
 
 
 def make_value(kind):
+    if kind == "func":
+        return lambda *a: 42          # a plain function object (at class level: a method of the robot)
     return {"A": A, "B": B, "C": C}[kind]() if kind in ("A", "B", "C") else \
-        {"zero": 0, "int7": 7, "empty": "", "none": None, "list": [1, 2]}[kind]
+        {"zero": 0, "int7": 7, "empty": "", "none": None, "list": [1, 2], "true": True, "false": False}[kind]
 
 
 MODE_SRC = '''
@@ -71,7 +74,8 @@ def prepare_package(root):
 def run_case(c, AM, uid):
     order = c["order"]
     K = {}
-    ANN = {"A": A, "B": B, "C": C, "int": int, "str": str, "listint": list[int]}
+    ANN = {"A": A, "B": B, "C": C, "int": int, "str": str, "listint": list[int], "bool": bool,
+           "callable": typing.Callable[[], int]}
     witness = {"setup_calls": 0, "setup_ok": True}
     requested = {}     # comp -> attribute names that must have been injected before any setup()
     for cn in order:
@@ -86,7 +90,11 @@ def run_case(c, AM, uid):
                 ns[a["n"]] = PRESET
         params = ", ".join(p["n"] for p in ctor)
         body = ["    pass"]
-        body += ["    self.%s = PRESET" % n for n in init_presets]
+        if c.get("same"):
+            # one class for both components: the constructor presets x only when told to (own)
+            body += ["    if own:", "        self.x = PRESET"]
+        else:
+            body += ["    self.%s = PRESET" % n for n in init_presets]
         body += ["    self._ctor_%s = %s" % (p["n"].lstrip("_"), p["n"]) for p in ctor]
         src = "def __init__(self%s):\n%s\n" % (", " + params if params else "", "\n".join(body))
         env = {"PRESET": PRESET}
@@ -108,6 +116,8 @@ def run_case(c, AM, uid):
             bases = (type("Base_%s_%d" % (cn, uid), (object,),
                           dict({"__annotations__": {}}, **{a["n"]: PRESET for a in basepreset})),)
         K[cn] = type("K_%s_%d" % (cn, uid), bases, ns)
+        if c.get("same") and len(K) == 2:
+            K[cn] = K[order[0]]          # the second component is another instance of the first one's class
         requested[cn] = [a["n"] for a in spec["attrs"] if a["n"] != "_p" and a["preset"] in ("no", "inherited")]
     ANN["K1"] = K.get("c1", type("Never1", (), {}))
     ANN["K2"] = K.get("c2", type("Never2", (), {}))
